@@ -190,15 +190,19 @@ def octaEnc (t : OctaT) (orig pred : List Int) : List Int :=
     Normal encoder (`SequentialNormalAttributeEncoder::CreateIntPredictionScheme`): option or
     `SelectPredictionMethod`; GEOMETRIC_NORMAL and DIFFERENCE give the delta encoder, anything
     else nullptr. -/
-def predictionEnabled (ch : Choices) (o : AttOpts) (i kind : Nat) : Bool :=
+def predictionEnabledSel (sel : Int) (o : AttOpts) (kind : Nat) : Bool :=
   if kind == 3 then
-    let pm := o.prediction.getD (ch.selectPrediction i)
+    let pm := o.prediction.getD sel
     pm == Generated.MESH_PREDICTION_GEOMETRIC_NORMAL || pm == Generated.PREDICTION_DIFFERENCE
   else
     let p := o.prediction.getD (-1)
-    let m := if p == -1 then ch.selectPrediction i
+    let m := if p == -1 then sel
              else if p < 0 || p ≥ Generated.NUM_PREDICTION_SCHEMES then Generated.PREDICTION_NONE else p
     m != Generated.PREDICTION_NONE
+
+/-- … with the result of `SelectPredictionMethod` taken from `ch.selectPrediction` -/
+def predictionEnabled (ch : Choices) (o : AttOpts) (i kind : Nat) : Bool :=
+  predictionEnabledSel (ch.selectPrediction i) o kind
 
 /-- the raw (`use_built_in_attribute_compression = false`) path of `EncodeValues`:
     `num_bytes = 1 + msb(OR of all values) / 8`, then the low `num_bytes` bytes of every value -/
@@ -663,6 +667,29 @@ def quantReq (g : Geometry) (opts : EncOpts) : List (Nat × Nat) :=
 
 /-- all attribute types: the skip set of the "all transforms skipped" decode -/
 def allTypes : List Nat := [0, 1, 2, 3, 4]
+
+/-- the prediction scheme bytes at the head of the value block of attribute `i` — prediction method and,
+    with a prediction scheme, the transform type — computed from geometry and options ALONE (no choices,
+    no stream): empty for the generic encoder and for an attribute without values; `PREDICTION_NONE`
+    when the resolved method is NONE or the value range cannot be represented by the wrap transform
+    (fix 8ef32e0); else `PREDICTION_DIFFERENCE` with the wrap (integer / quantization) or the
+    canonicalized octahedron (normals) transform -/
+def schemePrefix (kind : Nat) (pred : Bool) (portable : List Int) : Bytes :=
+  let pred' := pred && (match Wrap.dataBounds portable with
+    | none => true
+    | some (mn, mx) => decide (mx - mn < 2^31 - 1))
+  if pred' then
+    [toUnsigned 8 Generated.PREDICTION_DIFFERENCE,
+     toUnsigned 8 (if kind == 3 then Generated.PREDICTION_TRANSFORM_NORMAL_OCTAHEDRON_CANONICALIZED
+                   else Generated.PREDICTION_TRANSFORM_WRAP)]
+  else [toUnsigned 8 Generated.PREDICTION_NONE]
+
+def schemeBytesOf (g : Geometry) (opts : EncOpts) (i : Nat) (a : Attribute) : Bytes :=
+  let kind := encoderType a (opts.att i)
+  if kind == 0 || a.numValues == 0 then [] else
+  schemePrefix kind
+    (predictionEnabledSel (selectPredictionMethod g.isMesh opts g.atts g.numPoints i) (opts.att i) kind)
+    (portableOf opts g.numPoints i a).1
 
 /-- float oracle hypothesis for one normal: the first rounded coordinate computed by
     `FloatVectorToQuantizedOctahedralCoords` has magnitude at most `center_value_` (holds for every
